@@ -12,8 +12,9 @@ import GqlModel.Schema.Types
     order; `defs` (the Go slice of all definitions incl. the ones created by extensions) is exactly
     the value list of that association list, because both are extended at the same moments.
   * `PossibleTypes` / `Implements` hold `Option Name` while loading: `none` is the nil pointer that
-    `schema.Types[t]` yields for an undeclared name.  `isCovariant` dereferences those entries
-    (`pt.Name`), which is the one reachable panic of the loader; it is the `panic` outcome here.
+    `schema.Types[t]` yields for an undeclared name.  `isCovariant` dereferences the entries
+    (`pt.Name`): a nil entry would be the `panic` outcome.  Since the repair of the loader no nil
+    entry is stored (`pushPtr`), and `C07_load_no_panic` proves the outcome unreachable.
   * Map iterations: schema.go:198 and :213 collect the keys and `sort.Strings` them — reproduced
     with `sortNames` (bytewise order).  There is no other `range` over a map in schema.go.
   * Errors carry the rendered message bytes and (line, column, source index) of the position given
@@ -95,6 +96,7 @@ def redeclareDirective (n : Name) : Bytes := str "Cannot redeclare directive " +
 def multipleSchema : Bytes := str "Cannot have multiple schema entry points, consider schema extensions instead."
 def rootMissing (op : Bytes) (ty : Name) : Bytes :=
   str "Schema root " ++ op ++ str " refers to a type " ++ ty ++ str " that does not exist."
+def rootTwice (op : Bytes) : Bytes := str "Schema root " ++ op ++ str " is defined more than once."
 def undefinedType (n : Bytes) : Bytes := str "Undefined type " ++ n ++ str "."
 def memberKind (k : DefKind) (m : Name) : Bytes :=
   k.render ++ str " type " ++ quote m ++ str " must be " ++ kindList [.object] ++ str "."
@@ -310,7 +312,7 @@ def validateImplementsField (s : LState) (d intf : Definition) (required : Field
       match argDefForName found.args ra.name with
       | none => failAt found.pos (Msg.missingArg d.name intf.name required.name ra.name)
       | some fa =>
-        if isCompatible ra.type fa.type then .pass
+        if ra.type.render == fa.type.render then .pass        -- identical type (repair of R7a)
         else failAt fa.pos (Msg.argType d.name intf.name required.name ra.name)) ⊳
     each found.args (fun fa =>
       if (argDefForName required.args fa.name).isNone && fa.type.nonNull && fa.default.isNone then
@@ -350,6 +352,7 @@ def validateKindSpecific (s : LState) (d : Definition) : Chk :=
     if d.enumValues.isEmpty then failAt d.pos (Msg.noEnumValues d.kind d.name)
     else each d.enumValues fun v =>
       (if nonEnumNames.contains v.name then failAt d.pos (Msg.nonEnumValue d.kind d.name v.name) else .pass) ⊳
+      validateName v.pos v.name ⊳
       validateDirectives s v.dirs locEnumValue none
   | .inputObject =>
     if d.fields.isEmpty then failAt d.pos (Msg.noInputFields d.kind d.name)
@@ -436,18 +439,25 @@ abbrev Rel := List (Name × List (Option Name))
 /-- the pointer `schema.Types[n]` seen through its `.Name` -/
 def ptrOf (types : List (Name × Definition)) (n : Name) : Option Name := (types.lookup n).map (·.name)
 
+/-- `if x := schema.Types[n]; x != nil { Add…(key, x) }`: an undeclared name is never entered
+    (repair of the loader panic: no nil entries in the relations) -/
+def pushPtr (k : Name) (v : Option Name) (r : Rel) : Rel :=
+  match v with
+  | some n => pushKV k (some n) r
+  | none => r
+
 /-- third loop body for one definition: (PossibleTypes, Implements) -/
 def relateDef (types : List (Name × Definition)) (d : Definition) (pi : Rel × Rel) : Rel × Rel :=
   match d.kind with
   | .union =>
-    d.types.foldl (fun (p, i) t => (pushKV d.name (ptrOf types t) p, pushKV t (some d.name) i)) pi
-  | .inputObject | .object =>
+    d.types.foldl (fun (p, i) t => (pushPtr d.name (ptrOf types t) p, pushKV t (some d.name) i)) pi
+  | .object =>
     let (p, i) := d.interfaces.foldl
-      (fun (p, i) intf => (pushKV intf (some d.name) p, pushKV d.name (ptrOf types intf) i)) pi
+      (fun (p, i) intf => (pushKV intf (some d.name) p, pushPtr d.name (ptrOf types intf) i)) pi
     (pushKV d.name (some d.name) p, i)
   | .interface =>
-    d.interfaces.foldl (fun (p, i) intf => (pushKV intf (some d.name) p, pushKV d.name (ptrOf types intf) i)) pi
-  | .scalar | .enum => pi
+    d.interfaces.foldl (fun (p, i) intf => (pushKV intf (some d.name) p, pushPtr d.name (ptrOf types intf) i)) pi
+  | .scalar | .enum | .inputObject => pi     -- `case Object:` only: an input object contributes nothing
 
 def buildRelations (types : List (Name × Definition)) : Rel × Rel :=
   (types.map Prod.snd).foldl (fun pi d => relateDef types d pi) ([], [])
@@ -480,11 +490,17 @@ def setRoots (types : List (Name × Definition)) : List OpTypeDef → Roots → 
     match types.lookup e.type with
     | none => .error (errorPosf e.pos (Msg.rootMissing e.op e.type))
     | some d =>
-      setRoots types rest
-        (if e.op == opQuery then { r with query := some d.name }
-         else if e.op == opMutation then { r with mutation := some d.name }
-         else if e.op == opSubscription then { r with subscription := some d.name }
-         else r)
+      -- `setRootOperationType`: each operation can be given a root type only once (repair of R17a)
+      if e.op == opQuery then
+        if r.query.isSome then .error (errorPosf e.pos (Msg.rootTwice e.op))
+        else setRoots types rest { r with query := some d.name }
+      else if e.op == opMutation then
+        if r.mutation.isSome then .error (errorPosf e.pos (Msg.rootTwice e.op))
+        else setRoots types rest { r with mutation := some d.name }
+      else if e.op == opSubscription then
+        if r.subscription.isSome then .error (errorPosf e.pos (Msg.rootTwice e.op))
+        else setRoots types rest { r with subscription := some d.name }
+      else setRoots types rest r
 
 /-- result of the schema-definition / schema-extension part -/
 inductive RootsResult
